@@ -56,6 +56,10 @@ type Thread struct {
 	// and callbacks run in a nested RunContinuation, which uses Go stack.
 	luaReentryDepth int
 
+	// Set by Metacall for the call of a __close metamethod: how far beyond
+	// maxGoFunctionCallDepth that one call may nest (consumed by Call()).
+	reentryHeadroom int
+
 	// Number of threads on the chain of resumers of this thread.  Each of them
 	// is a goroutine blocked in Resume, so the nesting is bounded like the
 	// other kinds of nesting that use Go resources.
